@@ -67,7 +67,7 @@ class ScriptedPlayer:
 
     def __init__(self, seat, team, script, style, seed, addr, version=18, overrides=None,
                  name=None, on_verdict=None, vanish=None, pre_connect=None, post_connect=None,
-                 linger_gate=None):
+                 linger_gate=None, impatient=False):
         self.seat = seat
         self.team = team
         self.script = script            # list of {'calls': [...], 'cards': [...]} per board
@@ -97,6 +97,11 @@ class ScriptedPlayer:
         # up -- it just sits there (a program showing an error dialog) until the gate opens.  The
         # table manager must close its side and go on accepting regardless.
         self.linger_gate = linger_gate
+        # impatient: the program sends its (complete, well-formed) request and hangs up at once,
+        # without waiting for the answer.  Only requests that are refused whatever the order
+        # (wrong protocol version) are made impatient; the table manager must answer, close and
+        # go on accepting all the same.
+        self.impatient = impatient
         # observations
         self.sent = []                  # raw lines sent
         self.received = []              # raw lines received
@@ -219,6 +224,11 @@ class ScriptedPlayer:
             self.offended = True
             raise _Stop()
         self.send(request)
+        if self.impatient:
+            self.sock.close()
+            self.verdict = 'gone'
+            self._verdict()
+            raise _Stop()
         line = self.recv()
         if line is None:
             self.verdict = 'closed'
